@@ -7,7 +7,7 @@ wt=$(mktemp -d /tmp/harmless-wt.XXXXXX); rmdir $wt
 git -C /repo worktree add --detach -q $wt HEAD || exit 9
 declare -A PROPS=( [nonnegmean]="C01 C05 C11 C12 C13 C16" [audit]="C02 C03 C06 C07 C08 C09 C10 C16 C18" [raire_formats]="C04 C14 C15 C17 C18 C19 C20" )
 : > $out
-for set in ${HARMLESS_SETS:-nonnegmean audit raire_formats core2 raire_formats2 wave3}; do
+for set in ${HARMLESS_SETS:-nonnegmean audit raire_formats core2 raire_formats2 wave3 wave4}; do
   for f in /verif/harmless/$set/h*.diff; do
     n=$(basename $f .diff)
     git -C $wt checkout -q -- . ; git -C $wt apply --whitespace=nowarn $f || { echo "$set/$n APPLY-FAIL" >> $out; continue; }
